@@ -500,8 +500,9 @@ func vfC14ReadRESP(raw []byte) ([]vfC14Parsed, error) {
 // ---------------------------------------------------------------- (5) text vs binary
 
 type vfC14TextSession struct {
-	conn *vfC14Conn
-	tsp  *TextServerProtocol
+	conn  *vfC14Conn
+	tsp   *TextServerProtocol
+	stuck bool
 }
 
 func vfC14NewTextSession(in *vfInstance) *vfC14TextSession {
@@ -509,13 +510,70 @@ func vfC14NewTextSession(in *vfInstance) *vfC14TextSession {
 	return &vfC14TextSession{conn: conn, tsp: NewTextServerProtocol(in.slock, NewStream(conn))}
 }
 
+// run feeds the chunks through TextServerProtocol.Process(). The text handlers
+// block until the lock request is answered; with the manual clock an
+// unexpected wait would never end, so the call is bounded.
 func (s *vfC14TextSession) run(chunks [][]byte) ([]byte, error) {
 	s.conn.in = vfC14CopyChunks(chunks)
-	err := s.tsp.Process()
-	return s.conn.take(), err
+	done := make(chan error, 1)
+	go func() { done <- s.tsp.Process() }()
+	select {
+	case err := <-done:
+		return s.conn.take(), err
+	case <-time.After(20 * time.Second):
+		s.conn = &vfC14Conn{} // the blocked goroutine keeps the old one
+		s.stuck = true
+		return nil, fmt.Errorf("TextServerProtocol.Process did not return within 20 s (request waits for a lock)")
+	}
 }
 
-func (s *vfC14TextSession) close() { _ = s.tsp.Close() }
+// vfC14RequestBulkSpans locates the bulk-string bodies of a RESP request
+// stream (one or more "*n" arrays of "$len" strings).
+func vfC14RequestBulkSpans(stream []byte) []vfC14Span {
+	var out []vfC14Span
+	pos := 0
+	for pos < len(stream) {
+		i := bytes.Index(stream[pos:], []byte("\r\n"))
+		if i < 0 {
+			break
+		}
+		hdr := stream[pos : pos+i]
+		pos += i + 2
+		if len(hdr) > 0 && hdr[0] == '$' {
+			n, _ := strconv.Atoi(string(hdr[1:]))
+			out = append(out, vfC14Span{pos, pos + n})
+			pos += n + 2
+		}
+	}
+	return out
+}
+
+// vfC14SafeChunks: PRNG chunking that avoids the read pattern of the request
+// parser defect reported by the treq sub-check (a bulk body read in pieces whose
+// last piece ends the read), so that the server sub-checks stay meaningful
+// while that defect is open. Falls back to a single chunk.
+func vfC14SafeChunks(r *vfRand, stream []byte, max int) [][]byte {
+	spans := &vfC14Stream{Bulks: vfC14RequestBulkSpans(stream)}
+	for try := 0; try < 8; try++ {
+		chunks := vfC14RandChunks(r, stream, max)
+		var bounds []int
+		pos := 0
+		for _, ch := range chunks[:len(chunks)-1] {
+			pos += len(ch)
+			bounds = append(bounds, pos)
+		}
+		if !vfC14BulkTrigger(spans, bounds) {
+			return chunks
+		}
+	}
+	return [][]byte{stream}
+}
+
+func (s *vfC14TextSession) close() {
+	if !s.stuck {
+		_ = s.tsp.Close()
+	}
+}
 
 func vfC14GenIdString(r *vfRand, n int) string {
 	b := r.Bytes(n)
@@ -575,7 +633,7 @@ func vfC14ParseTextReply(p vfC14Parsed) (*vfC14TextReply, error) {
 func (c *vfC14Ctx) subEquiv() {
 	r := c.rng
 	in := vfC14GetLeader(c.env)
-	keyLen := (c.i / 20) % 65
+	keyLen := r.Intn(65)
 	keyStr := vfC14GenIdString(r, keyLen)
 	wantKey := vfC14NormKey(keyStr)
 	hasId := !r.Chance(20)
@@ -648,9 +706,12 @@ func (c *vfC14Ctx) subEquiv() {
 	case 0:
 		chunks = [][]byte{stream}
 	case 1:
-		chunks = vfC14RandChunks(r, stream, 16)
+		chunks = vfC14SafeChunks(r, stream, 16)
 	default:
-		chunks = vfC14RandChunks(r, stream, 200)
+		chunks = vfC14SafeChunks(r, stream, 200)
+	}
+	if len(chunks) > 1 {
+		c.part.Add("eq_text_request_split", 1)
 	}
 	c.part.Add("eq_cases", 1)
 	d := &vfC14Differ{}
@@ -780,7 +841,7 @@ func (c *vfC14Ctx) subEquiv() {
 		unlockArgs = append(unlockArgs, "LOCK_ID", idStr)
 	} // else: README "if not specified, the last lock_id will be used automatically"
 	ustream := builder.BuildRequest(unlockArgs)
-	uraw, _ := ts.run(vfC14RandChunks(r, ustream, 64))
+	uraw, _ := ts.run(vfC14SafeChunks(r, ustream, 64))
 	doc["text_unlock_request"] = fmt.Sprintf("%q", ustream)
 	doc["text_unlock_reply"] = fmt.Sprintf("%q", uraw)
 	utwin := vfC14UnlockFor(r, &twin)
@@ -823,7 +884,7 @@ func (c *vfC14Ctx) subEquiv() {
 		doc["differences"] = all
 		field := first.Field
 		if first.Where == "lock.effect" && len(field) > 8 && field[:8] == "key used" {
-			field = fmt.Sprintf("key-normalisation(len=%d)", keyLen)
+			field = "key-normalisation(" + vfC14LenClass(keyLen) + ")"
 		}
 		fail("text-vs-binary:"+first.Where+":"+field, fmt.Sprintf("text %q vs the equivalent binary command: %s (%d difference(s))", lockArgs, first.String(), len(d.diffs)))
 	}
@@ -885,7 +946,7 @@ func (c *vfC14Ctx) subRender() {
 			raw := ts.conn.take()
 			c.part.Add("render_codes_checked", 1)
 			c.part.Add(fmt.Sprintf("render_code_%02d", code), 1)
-			problem := ""
+			problem, field := "", ""
 			if pan != "" {
 				problem = "panics: " + pan
 				// the result taken from lockWaiter was not handed back: restore the invariant
@@ -905,19 +966,23 @@ func (c *vfC14Ctx) subRender() {
 					}
 					switch {
 					case rep.Code != code:
-						problem = fmt.Sprintf("renders RESULT_CODE %d", rep.Code)
+						problem, field = fmt.Sprintf("renders RESULT_CODE %d", rep.Code), "RESULT_CODE"
 					case rep.Msg == "":
-						problem = "renders an empty RESULT_MSG"
+						problem, field = "renders an empty RESULT_MSG", "RESULT_MSG"
 					case rep.LockId != vfC14Hex(cmd.LockId[:]):
-						problem = fmt.Sprintf("renders LOCK_ID %s, expected %x", rep.LockId, cmd.LockId)
+						problem, field = fmt.Sprintf("renders LOCK_ID %s, expected %x", rep.LockId, cmd.LockId), "LOCK_ID"
 					case rep.LCount != int(lcount) || rep.LRCount != int(lrcount):
-						problem = fmt.Sprintf("renders LCOUNT %d LRCOUNT %d, expected %d %d", rep.LCount, rep.LRCount, lcount, lrcount)
+						problem, field = fmt.Sprintf("renders LCOUNT %d LRCOUNT %d, expected %d %d", rep.LCount, rep.LRCount, lcount, lrcount), "LCOUNT/LRCOUNT"
 					case rep.Count != int(cmd.Count)+add || rep.RCount != int(cmd.Rcount)+add:
-						problem = fmt.Sprintf("renders COUNT %d RCOUNT %d, expected %d %d", rep.Count, rep.RCount, int(cmd.Count)+add, int(cmd.Rcount)+add)
+						problem, field = fmt.Sprintf("renders COUNT %d RCOUNT %d, expected %d %d", rep.Count, rep.RCount, int(cmd.Count)+add, int(cmd.Rcount)+add), "COUNT/RCOUNT"
 					}
 				}
 			}
-			if problem != "" {
+			if field != "" {
+				c.report("render", "result-field-text-rendering", "text-render:field:"+field,
+					fmt.Sprintf("result code %d (%s): %s %s", code, vfResName(uint8(code)), p.name, problem),
+					map[string]interface{}{"result_code": code, "path": p.name, "problem": problem, "written": fmt.Sprintf("%q", raw)}, 2)
+			} else if problem != "" {
 				c.report("render", "result-code-text-rendering", fmt.Sprintf("text-render:result-code-%d", code),
 					fmt.Sprintf("result code %d (%s) has no text rendering: %s %s", code, vfResName(uint8(code)), p.name, problem),
 					map[string]interface{}{"result_code": code, "path": p.name, "problem": problem, "written": fmt.Sprintf("%q", raw)}, 1)
@@ -1205,6 +1270,16 @@ func (c *vfC14Ctx) subFirstFrame() {
 
 // ---------------------------------------------------------------- id / key converter functions
 
+func vfC14LenClass(n int) string {
+	switch {
+	case n <= 16:
+		return "len<=16"
+	case n == 32:
+		return "len=32"
+	}
+	return "len>16"
+}
+
 func (c *vfC14Ctx) subIdFuncs() {
 	r := c.rng
 	conv := protocol.NewTextCommandConverter()
@@ -1225,7 +1300,7 @@ func (c *vfC14Ctx) subIdFuncs() {
 			got  [16]byte
 		}{{"protocol.TextCommandConverter.ConvertArgId2LockId", a}, {"client.TextClientProtocol.ArgsToLockComandResultParseId", b}, {"protocol.ConvertString2LockKey", k}} {
 			if x.got != want {
-				c.report("idfunc", "key-id-normalisation", fmt.Sprintf("key-normalisation:%s:len=%d", x.name, n),
+				c.report("idfunc", "key-id-normalisation", fmt.Sprintf("key-normalisation:%s:%s", x.name, vfC14LenClass(n)),
 					fmt.Sprintf("%s(%d-byte string %x) = %x, README rule (<=16: zero bytes in front, 32 hex characters: decoded, else MD5) gives %x", x.name, n, s, x.got, want),
 					map[string]interface{}{"function": x.name, "input": vfC14Hex([]byte(s)), "len": n, "expected": vfC14Hex(want[:]), "got": vfC14Hex(x.got[:])}, 2)
 			}
